@@ -241,7 +241,13 @@ impl<'a> Planner<'a> {
             }
             resolved_values.extend(op_node.output_ids().iter().filter_map(|id_opt| *id_opt));
             pruned_plan.push(node_id);
-            candidate_outputs.extend(op_node.output_ids().iter().filter_map(|id_opt| *id_opt));
+            // An operator output may also have been supplied as an input. List
+            // each value only once, as the outputs of a plan must be unique.
+            for output_id in op_node.output_ids().iter().flatten() {
+                if !candidate_outputs.contains(output_id) {
+                    candidate_outputs.push(*output_id);
+                }
+            }
         }
 
         // Get IDs of values produced by the pruned plan which are either in the
